@@ -142,7 +142,7 @@ def run_scenario(task):
         counters["events"] += len(ev)
         return False
 
-    leaves = explore(fn_full, max_exp=max_exp, on_leaf=on_leaf, max_leaves=task.get("max_leaves", 60000))
+    leaves = explore(fn_full, max_exp=max_exp, on_leaf=on_leaf, max_leaves=task.get("max_leaves", 60000), deep_is_error=True)
     nevents = counters["events"]
     stats = {"nodes": 0}
     if not isinstance(leaves, Incomplete):
